@@ -268,3 +268,45 @@ def apply_canary(target, kind, old, new):
     def undo():
         fn.__code__ = old_code
     return undo
+
+
+# ----------------------------------------------------------------------------------------------
+# known findings inside workers: re-prove the obligation with the listed region excluded
+# ----------------------------------------------------------------------------------------------
+def region_z3(rec):
+    return eval(rec["region_z3"], {"__builtins__": {}}, {"R": z3.Real, "And": z3.And, "Or": z3.Or, "Not": z3.Not, "q": lambda s: z3.RealVal(s)})
+
+
+def apply_known(known, name, hyps, goal, res, tier):
+    """res: Result (refuted).  If a known finding lists this obligation and the witness lies in its region, the
+    obligation is re-proved on the domain minus the region: proved -> status 'known-finding'; refuted again ->
+    a different violation (returned as such, with the new witness)."""
+    import fnmatch
+    from fractions import Fraction
+    if res.status != "refuted":
+        return res
+    for rec in known or []:
+        if not fnmatch.fnmatchcase(name, rec["obligation"]):
+            continue
+        if "region_z3" not in rec:
+            continue
+        reg = region_z3(rec)
+        env = {k: Fraction(v) for k, v in res.model.items() if "/" in str(v) or str(v).lstrip("-").replace(".", "").isdigit()}
+        try:
+            inside = bool(zeval(reg, env, mpmath))
+        except Exception:
+            inside = False
+        if not inside:
+            continue
+        r2 = D.prove(name, hyps + [z3.Not(reg)], goal, timeout_ms=budget(tier))
+        if r2.status == "proved":
+            res.status = "known-finding"
+            res.detail = f"{rec['id']}: witness inside the listed region; obligation discharged on the domain minus the region ({r2.backend}, {r2.time_s:.2f}s)"
+            res.model = dict(res.model, known_id=rec["id"])
+            return res
+        if r2.status == "refuted":
+            r2.detail = f"violation OUTSIDE the region of known finding {rec['id']}: " + r2.detail
+            return r2
+        r2.detail = f"undecided on the domain minus the region of {rec['id']}: " + r2.detail
+        return r2
+    return res
